@@ -1124,7 +1124,7 @@ def evaluate(chk, scs, results, label):
         shape = shape_class(fc.get("ast"), fc.get("fail"))
         payload = {"suite": "wire", "scenario": scenario_payload(scs[si]), "request_index": fc["k"],
                    "command": ("UID FETCH " if fc["uid"] else "FETCH ") + fc["text"], "response": C.latin(fc["recv"][:4000])}
-        reason = "disposition_nil" if (not ok and "disposition [b'NIL', b'NIL']" in why) else None
+        reason = None   # no failure reason is a listed class any more (disposition_nil repaired by c1eb865)
         if not ok:
             cls = coq_cls or shape or reason
             chk.violation("FETCH %s on a stored message: %s" % (fc["text"], why), payload, cls=cls)
